@@ -120,7 +120,8 @@ reg("C15", native("mon-crash", "rt_crash"),
     "fault enumeration: recorded pwrite/fdatasync/fsync/fallocate log (hook H1) -> every crash point x persistence subsets of volatile writes (+ torn writes) -> reopen with the real storage and compare with recorded commit states",
     "A real multi-commit workload on the libc FileManager is recorded through hook H1. For every crash point (after each I/O event) every persistence choice of the writes issued since the last barrier is materialised "
     "(none/all/power set when small/each single dropped or kept/prefixes/suffixes/seeded random subsets, plus torn variants) and reopened with the real LinearStorageProvider: an Ok open must equal the last completed or the "
-    "in-progress commit with every head, command and fact readable, continuing (append+commit+reopen) must give recovered+new, and an error is allowed only before the first commit completed.",
+    "in-progress commit with every head, command and fact readable, continuing (append+commit+reopen) must give recovered+new, and an error is allowed only before the first commit completed. "
+    "For a sample of the recovered images the continuation commit's own I/O is recorded and a second crash inside it is enumerated the same way: reopening must give the recovered or the continued state.",
     "Disk model: writes become durable at the next fdatasync/fsync at the latest, any subset (possibly torn) may persist before; directory-entry durability, media corruption of durable data and multi-file atomicity are not modelled. "
     "Crash points are enumerated exhaustively per recorded workload; persistence subsets exhaustively up to 7 (quick) / 11 (thorough) volatile writes and sampled beyond.",
     level="fault_enumeration", design_ref="DESIGN.md 4 (C15)")
